@@ -68,6 +68,30 @@ def check_iban(rec: Rec, text: str, origin: str, must_accept=True):
     return True
 
 
+def check_live_together(rec: Rec, items):
+    """Objects of different countries carrying the same BBAN text, alive at the same time (IBANs, their BBANs and directly
+    built BBAN objects), components read in turn - first to last, then last to first: each reports its own country's slices."""
+    from ..lib import BBAN, IBAN, SchwiftyException
+    o = oracle()
+    objs = []
+    try:
+        for y, ty in items:
+            objs.append((y, ty[4:], IBAN(ty)))
+            objs.append((y, ty[4:], BBAN(y, ty[4:])))
+    except SchwiftyException:
+        return
+    for y, bban, ob in objs + objs[::-1]:
+        for k in COMPONENTS:
+            want = o.component(y, bban, k)
+            got = getattr(ob, k)
+            if got != want:
+                rec.fail(f"component|{k}|live-together", "component_is_table_slice",
+                         {"iban": items[0][1], "origin": "live-together", "items": [list(i) for i in items], "component": k, "country": y},
+                         want, got)
+                return
+    rec.classes["live-together"] += 1
+
+
 def check_foreign_bban_object(rec: Rec, cc, y, bban, want_text):
     from ..lib import BBAN, IBAN, SchwiftyException
     o = oracle()
@@ -120,6 +144,9 @@ def replay(rec, case):
         t = i["iban"]
         check_foreign_bban_object(rec, i["bban_object_country"], t[:2], t[4:], t)
         return
+    if i.get("origin") == "live-together":
+        check_live_together(rec, [tuple(x) for x in i["items"]])
+        return
     if i.get("origin") == "overlay":
         overlay_stage(rec, case.get("seed", 1), "quick")
         return
@@ -153,6 +180,7 @@ def shard_country(arg):
                 check_foreign_bban_object(rec, cc, y, t[4:], ty)
             if sibs:
                 check_iban(rec, t, "after-sibling")
+                check_live_together(rec, [(cc, t)] + sibs)
         # "every accepted IBAN": whatever else the library accepts among the congruent spellings of the check digits
         # (C02 says it should accept none) must decompose and re-assemble just as well
         d = int(t[2:4])
@@ -306,4 +334,4 @@ def run(ctx):
     overlay_stage(ctx.rec, ctx.seed, ctx.tier)
     from ._configs import stage as _config_stage
     _config_stage(ctx, ['assemble', 'bic'])
-    ctx.require_classes("overlay-extra-keys", "overlay-synthetic", "foreign-bban-object", "iban-sibling-text", "iban-registry-derived", "bic-registry", "bic-gen-8", "bic-gen-11", *[f"iban-{cc}" for cc in o.countries()])
+    ctx.require_classes("live-together", "overlay-extra-keys", "overlay-synthetic", "foreign-bban-object", "iban-sibling-text", "iban-registry-derived", "bic-registry", "bic-gen-8", "bic-gen-11", *[f"iban-{cc}" for cc in o.countries()])
